@@ -49,8 +49,11 @@ def _representable(value: Any) -> bool:
         and not inspect.ismethod(value)
         and not inspect.ismodule(value)
         and not inspect.isbuiltin(value)
-        and not inspect.isroutine(value)
-        and not isinstance(value, _METHOD_WRAPPER_TYPE)
+        and not isinstance(value, (staticmethod, classmethod, _METHOD_WRAPPER_TYPE))
+        # The functions which are not written in Python (``str.upper``, ``int.__add__``, a function wrapped
+        # by ``functools.lru_cache``) are callable method descriptors. An ordinary value whose class happens to
+        # define ``__get__`` is represented.
+        and not (callable(value) and inspect.ismethoddescriptor(value))
     )
 
 
